@@ -69,3 +69,306 @@ Proof.
   unfold unflatten_vals. rewrite existsb_neg_counts. cbn [Z.eqb].
   rewrite regroup1_concat_missing. reflexivity.
 Qed.
+
+Lemma mapM_elems_of_olist ls : mapM elems_of (map olist ls) = Ok (map oelems ls).
+Proof.
+  rewrite mapM_map. rewrite (mapM_ext_in _ (fun o => Ok (oelems o))); [apply mapM_pure|].
+  intros [l|] _; reflexivity.
+Qed.
+
+Definition onum (o : option (list value)) : value :=
+  match o with Some l => VNum (DZ (zlen l)) | None => VNone end.
+
+Lemma flatten1_option_lists sz te ls :
+  spec_flatten (Some 1) (TOpt (TList sz None te)) (map olist ls) = Ok (VList (concat (map oelems ls))).
+Proof.
+  unfold spec_flatten, resolve_axis_top, flatten_spec, resolve_axis. cbn.
+  rewrite mapM_elems_of_olist. reflexivity.
+Qed.
+
+Lemma num1_option_lists sz te ls :
+  spec_num 1 (TOpt (TList sz None te)) (map olist ls) = Ok (VList (map onum ls)).
+Proof.
+  unfold spec_num, resolve_axis_top, num_spec, spec_ax. cbn.
+  rewrite mapM_map.
+  rewrite (mapM_ext_in _ (fun o => Ok (onum o))); [rewrite mapM_pure; reflexivity|].
+  intros [l|] _; reflexivity.
+Qed.
+
+Lemma counts_of_onum ls : counts_of (TOpt (TNum DInt64)) (map onum ls) = Ok (map ocount ls).
+Proof.
+  unfold counts_of. cbn. rewrite mapM_map.
+  rewrite (mapM_ext_in _ (fun o => Ok (ocount o))); [apply mapM_pure|].
+  intros [l|] _; reflexivity.
+Qed.
+
+(* C05: unflatten(flatten(x), num(x)) = x  (axis=1 / axis=1 / axis=0, the defaults the property uses).
+   [x] is any array of lists, missing lists (None) included: they contribute nothing to flatten, num is None
+   there and unflatten puts None back. *)
+Theorem unflatten_flatten_lemma sz te (ls : list (option (list value))) f c :
+  let t := TOpt (TList sz None te) in
+  let x := map olist ls in
+  spec_flatten (Some 1) t x = Ok (VList f) ->
+  spec_num 1 t x = Ok (VList c) ->
+  spec_unflatten 0 te f (CArr (TOpt (TNum DInt64)) c) = Ok (VList x).
+Proof.
+  intros t x Hf Hc. subst t x.
+  rewrite flatten1_option_lists in Hf. rewrite num1_option_lists in Hc.
+  injection Hf as <-. injection Hc as <-.
+  unfold spec_unflatten, resolve_axis_top. cbn [Z.leb Z.compare bind Z.eqb Z.ltb andb].
+  rewrite counts_of_onum. cbn [bind]. apply unflatten_vals_concat.
+Qed.
+
+(* the same for an array without option type *)
+Lemma flatten1_lists sz te (ls : list (list value)) :
+  spec_flatten (Some 1) (TList sz None te) (map VList ls) = Ok (VList (concat ls)).
+Proof.
+  unfold spec_flatten, resolve_axis_top, flatten_spec, resolve_axis. cbn.
+  rewrite mapM_map. rewrite (mapM_ext_in _ (fun l => Ok l)); [rewrite mapM_pure, map_id; reflexivity|].
+  intros l _; reflexivity.
+Qed.
+Lemma num1_lists sz te (ls : list (list value)) :
+  spec_num 1 (TList sz None te) (map VList ls) = Ok (VList (map (fun l => VNum (DZ (zlen l))) ls)).
+Proof.
+  unfold spec_num, resolve_axis_top, num_spec, spec_ax. cbn.
+  rewrite mapM_map. unfold num_f. rewrite mapM_pure. reflexivity.
+Qed.
+Theorem unflatten_flatten_plain_lemma sz te (ls : list (list value)) f c :
+  let t := TList sz None te in
+  let x := map VList ls in
+  spec_flatten (Some 1) t x = Ok (VList f) ->
+  spec_num 1 t x = Ok (VList c) ->
+  spec_unflatten 0 te f (CArr (TNum DInt64) c) = Ok (VList x).
+Proof.
+  intros t x Hf Hc. subst t x.
+  rewrite flatten1_lists in Hf. rewrite num1_lists in Hc.
+  injection Hf as <-. injection Hc as <-.
+  unfold spec_unflatten, resolve_axis_top. cbn [Z.leb Z.compare bind Z.eqb Z.ltb andb].
+  unfold counts_of. cbn [strip_opt1 is_int_dt]. rewrite mapM_map. unfold count_of. rewrite mapM_pure. cbn [bind].
+  pose proof (unflatten_vals_concat (map Some ls)) as H.
+  rewrite !map_map in H. cbn [oelems ocount olist] in H.
+  rewrite map_id in H. exact H.
+Qed.
+
+(* ak.flatten(axis=None) of an array of lists is the concatenation of the flattened lists, in order *)
+Theorem flatten_none_app_lemma sz te (ls : list (list value)) :
+  leaves_l (TList sz None te) (map VList ls) = leaves_l te (concat ls).
+Proof.
+  cbn. rewrite mapM_map, mapM_pure. cbn. rewrite map_id. reflexivity.
+Qed.
+
+(* ====================================================================== C03 *)
+Lemma leaf_int_promote k v : leaf_int (promote_leaf k v) = leaf_int v.
+Proof. destruct v; try reflexivity. destruct k, b; reflexivity. Qed.
+
+(* ak.<reducer>(x, axis=None) is the reducer over ak.flatten(x, axis=None) *)
+Theorem reduce_none_is_reduce_of_flatten_lemma r t vs dt ls :
+  single_dt (leaf_dts t) = Some dt ->
+  (match r with RArgmin | RArgmax => has_rec t = false | _ => True end) ->
+  spec_flatten_none t vs = Ok (VList ls) ->
+  spec_reduce_none r t vs = (do zs <- mapM leaf_int ls; reduce_leaves r dt zs).
+Proof.
+  intros Hdt Hr Hf. unfold spec_reduce_none. rewrite Hdt.
+  unfold spec_flatten_none in Hf.
+  destruct (has_union t); [discriminate|].
+  destruct (leaf_dts t) eqn:El; [discriminate|].
+  unfold flatten_none_list in Hf.
+  destruct (leaves_l t vs) as [lv|e] eqn:Elv; [|discriminate].
+  cbn in Hf. injection Hf as <-. cbn [bind].
+  rewrite mapM_map.
+  match goal with |- context [mapM ?f lv] =>
+    assert (E : mapM f lv = mapM leaf_int lv) by (apply mapM_ext_in; intros; apply leaf_int_promote)
+  end.
+  rewrite E.
+  destruct (mapM leaf_int lv) as [zs|e]; cbn [bind]; [|reflexivity].
+  destruct r; try reflexivity; rewrite Hr; reflexivity.
+Qed.
+
+(* ====================================================================== C07 *)
+(* itertools.product: the last list varies fastest *)
+Fixpoint product {A} (ls : list (list A)) : list (list A) :=
+  match ls with
+  | [] => [[]]
+  | l :: rest => flat_map (fun a => map (cons a) (product rest)) l
+  end.
+
+Lemma product_length {A} (ls : list (list A)) :
+  length (product ls) = fold_right Nat.mul 1%nat (map (@length A) ls).
+Proof.
+  induction ls as [|l ls IH]; [reflexivity|].
+  cbn [product map fold_right]. rewrite <- IH. clear IH.
+  induction l as [|a l IHl]; [reflexivity|].
+  cbn [flat_map]. rewrite app_length, map_length, IHl. cbn. reflexivity.
+Qed.
+
+Lemma map_flat_map {A B C} (f : B -> C) (g : A -> list B) l :
+  map f (flat_map g l) = concat (map (fun a => map f (g a)) l).
+Proof.
+  induction l as [|a l IH]; [reflexivity|]. cbn. rewrite map_app, IH. reflexivity.
+Qed.
+
+Lemma mapM_Ok_map {A B} (f : A -> res B) (g : A -> B) l :
+  (forall a, In a l -> f a = Ok (g a)) -> mapM f l = Ok (map g l).
+Proof.
+  intros H. rewrite (mapM_ext_in f (fun a => Ok (g a))) by exact H. apply mapM_pure.
+Qed.
+
+(* un-nested cartesian product of k lists = itertools.product, as tuples *)
+Lemma cart_is_product (ls : list (list value)) : forall i prefix,
+  cart None [] i (map Some ls) prefix =
+  Ok (Some (map (fun t => VTup (rev prefix ++ t)) (product ls))).
+Proof.
+  induction ls as [|l ls IH]; intros i prefix.
+  - cbn. rewrite app_nil_r. reflexivity.
+  - cbn [map cart].
+    rewrite (mapM_Ok_map _ (fun a => Some (map (fun t => VTup (rev (a :: prefix) ++ t)) (product ls))))
+      by (intros a _; apply IH).
+    cbn [bind existsb].
+    assert (E : concat (map unopt_l (map (fun a => Some (map (fun t => VTup (rev (a :: prefix) ++ t)) (product ls))) l))
+                = map (fun t => VTup (rev prefix ++ t)) (product (l :: ls))).
+    { cbn [product]. rewrite map_flat_map, map_map. f_equal. apply map_ext. intros a.
+      cbn [unopt_l]. rewrite map_map. apply map_ext. intros t. cbn [rev]. rewrite <- app_assoc. reflexivity. }
+    destruct (map Some ls); rewrite E; reflexivity.
+Qed.
+
+(* C07: ak.cartesian(arrays, axis=0) yields exactly the tuples of itertools.product, in that order *)
+Theorem cartesian_is_product_lemma (a0 : arr) (arrs : list arr) :
+  spec_cartesian 0 NNone None (a0 :: arrs) = Ok (VList (map VTup (product (map snd (a0 :: arrs))))).
+Proof.
+  destruct a0 as [t0 v0].
+  unfold spec_cartesian, same_axis, resolve_axis_top. cbn [Z.leb Z.compare bind Z.ltb fst].
+  assert (F : forall l : list ty, forallb (fun _ : ty => 0 =? 0) l = true)
+    by (induction l; cbn; auto).
+  rewrite F. cbn [bind nested_list fields_ok negb Z.eqb].
+  unfold cart_entry.
+  change (map (fun a : arr => Some (snd a)) ((t0, v0) :: arrs))
+    with (map (fun a : ty * list value => Some (snd a)) ((t0, v0) :: arrs)).
+  rewrite <- (map_map snd Some ((t0, v0) :: arrs)).
+  rewrite cart_is_product. cbn [bind rev app]. reflexivity.
+Qed.
+
+(* the number of tuples is the product of the lengths *)
+Theorem cartesian_length_lemma (ls : list (list value)) out :
+  cart_entry None [] (map Some ls) = Ok (VList out) ->
+  length out = fold_right Nat.mul 1%nat (map (@length value) ls).
+Proof.
+  unfold cart_entry. rewrite cart_is_product. cbn. intros H. injection H as <-.
+  rewrite map_length. apply product_length.
+Qed.
+
+(* element (i, j) of the product of two lists is (a_i, b_j) *)
+Lemma product_single {A} (b : list A) : product [b] = map (fun y => [y]) b.
+Proof. cbn. induction b as [|y b IH]; [reflexivity|]. cbn. rewrite IH. reflexivity. Qed.
+Lemma product_pair {A} (a b : list A) :
+  product [a; b] = flat_map (fun x => map (fun y => [x; y]) b) a.
+Proof.
+  change (product [a; b]) with (flat_map (fun x => map (cons x) (product [b])) a).
+  rewrite product_single. induction a as [|x a IH]; [reflexivity|].
+  cbn [flat_map]. rewrite IH, map_map. reflexivity.
+Qed.
+Lemma product_pair_nth {A} (a b : list A) (d : A) i j :
+  (i < length a)%nat -> (j < length b)%nat ->
+  nth (i * length b + j) (product [a; b]) [] = [nth i a d; nth j b d].
+Proof.
+  rewrite product_pair. revert i. induction a as [|x a IH]; intros i Hi Hj; [cbn in Hi; lia|].
+  cbn [flat_map].
+  destruct i as [|i].
+  - cbn [Nat.mul Nat.add nth]. rewrite app_nth1 by (rewrite map_length; exact Hj).
+    rewrite (nth_indep _ [] [x; d]) by (rewrite map_length; exact Hj).
+    rewrite (map_nth (fun y => [x; y]) b d j). reflexivity.
+  - rewrite app_nth2 by (rewrite map_length; cbn; lia). rewrite map_length.
+    replace (S i * length b + j - length b)%nat with (i * length b + j)%nat by (cbn; lia).
+    cbn [nth]. apply IH; [cbn in Hi; lia | exact Hj].
+Qed.
+
+(* nested=True for two lists: one inner list per element of the first list *)
+Theorem cartesian_nested_pair_lemma (a b : list value) :
+  cart_entry None [0] [Some a; Some b] =
+  Ok (VList (map (fun x => VList (map (fun y => VTup [x; y]) b)) a)).
+Proof.
+  unfold cart_entry. cbn [cart].
+  rewrite (mapM_Ok_map _ (fun x => Some (map (fun y => VTup [x; y]) b))).
+  - cbn. rewrite map_map. reflexivity.
+  - intros x _. rewrite (mapM_Ok_map _ (fun y => Some [VTup [x; y]])) by (intros; reflexivity).
+    cbn [bind]. rewrite map_map. cbn [unopt_l].
+    f_equal. f_equal. induction b as [|y b IHb]; [reflexivity|]. cbn. rewrite IHb. reflexivity.
+Qed.
+
+(* ====================================================================== C08 *)
+Lemma forallb_true {A} (f : A -> bool) l : (forall x, f x = true) -> forallb f l = true.
+Proof. intros H. induction l; cbn; [reflexivity|]. rewrite H, IHl. reflexivity. Qed.
+
+(* C08: concatenation along axis 0 = the elements of the first array followed by those of the others, unchanged *)
+Theorem concat_axis0_app_lemma (a0 : arr) (arrs : list arr) :
+  existsb has_union (map fst (a0 :: arrs)) = false ->
+  mixes_bool_num (map fst (a0 :: arrs)) = false ->
+  0 < fold_right (fun t m => Z.max (snd (minmax t)) m) 0 (map fst (a0 :: arrs)) ->
+  spec_concat_axis 0 (a0 :: arrs) = Ok (VList (concat (map snd (a0 :: arrs)))).
+Proof.
+  intros Hu Hm Hd. destruct a0 as [t0 v0].
+  unfold spec_concat_axis. rewrite Hu. unfold resolve_axis_top. cbn [Z.leb Z.compare bind].
+  apply Z.ltb_lt in Hd. rewrite Hd.
+  cbn [andb negb].
+  rewrite forallb_true by (intros; reflexivity). cbn [negb].
+  rewrite Hm. reflexivity.
+Qed.
+
+(* rows of two equally long columns *)
+Lemma transpose2 (xs ys : list value) :
+  length xs = length ys ->
+  transpose_n (length xs) [xs; ys] = map (fun p : value * value => [fst p; snd p]) (zip xs ys).
+Proof.
+  revert ys. induction xs as [|x xs IH]; intros [|y ys] H; try discriminate; [reflexivity|].
+  cbn [length transpose_n map hd tl zip fst snd]. f_equal. apply IH. cbn in H. lia.
+Qed.
+Lemma rows_of2 (xs ys : list value) :
+  length xs = length ys ->
+  rows_of [xs; ys] = map (fun p : value * value => [fst p; snd p]) (zip xs ys).
+Proof. intros H. unfold rows_of. apply transpose2. exact H. Qed.
+
+Lemma zip_map2 {A B C D} (f : A -> C) (g : B -> D) l m :
+  zip (map f l) (map g m) = map (fun p : A * B => (f (fst p), g (snd p))) (zip l m).
+Proof.
+  revert m. induction l as [|x l IH]; intros [|y m]; try reflexivity. cbn. rewrite IH. reflexivity.
+Qed.
+
+Lemma lengths_differ2_false (xs ys : list value) :
+  length xs = length ys -> list_lengths_differ [xs; ys] = false.
+Proof.
+  intros H. unfold list_lengths_differ. cbn. unfold zlen. rewrite H. rewrite Z.eqb_refl. reflexivity.
+Qed.
+
+(* C08: concatenation along axis 1 concatenates corresponding lists (every element kept, in order) *)
+Theorem concat_axis1_zipapp_lemma sz te (xs ys : list (list value)) :
+  length xs = length ys ->
+  has_union te = false -> has_empty_rec te = false ->
+  mixes_bool_num [TList sz None te; TList sz None te] = false ->
+  1 <= snd (minmax te) ->
+  spec_concat_axis 1 [(TList sz None te, map VList xs); (TList sz None te, map VList ys)] =
+  Ok (VList (map (fun p : list value * list value => VList (fst p ++ snd p)) (zip xs ys))).
+Proof.
+  intros Hlen Hu He Hm Hd.
+  unfold spec_concat_axis. cbn [map fst existsb has_union]. rewrite Hu. cbn [orb].
+  unfold resolve_axis_top. cbn [Z.leb Z.compare bind fold_right].
+  cbn [minmax]. destruct (minmax te) as [mn mx] eqn:Emm. cbn [snd] in *.
+  replace ((0 <=? 1) && (1 <? Z.max (mx + 1) (Z.max (mx + 1) 0))) with true by lia.
+  cbn [negb forallb Z.eqb andb].
+  rewrite Hm. cbn [Z.eqb has_empty_rec]. rewrite He. cbn [orb bind].
+  cbn [Z.sub Z.to_nat Z.add Z.opp Z.pos_sub conc_ty existsb is_union orb forallb strip_opt1 andb].
+  cbn [snd].
+  rewrite lengths_differ2_false by (rewrite !map_length; exact Hlen).
+  rewrite rows_of2 by (rewrite !map_length; exact Hlen).
+  rewrite zip_map2, !map_map.
+  replace (1 <? Z.max (mx + 1) (Z.max (mx + 1) 0)) with true by lia.
+  cbn [negb Pos.eqb andb bind].
+  rewrite mapM_map.
+  rewrite (mapM_Ok_map _ (fun p : list value * list value => VList (fst p ++ snd p))).
+  - reflexivity.
+  - intros [a b] _. cbn. rewrite app_nil_r. reflexivity.
+Qed.
+
+(* the length of every output list is the sum of the lengths of the input lists *)
+Corollary concat_axis1_lengths (xs ys : list (list value)) :
+  map (fun p : list value * list value => zlen (fst p ++ snd p)) (zip xs ys) =
+  map (fun p : list value * list value => zlen (fst p) + zlen (snd p)) (zip xs ys).
+Proof. apply map_ext. intros [a b]. apply zlen_app. Qed.
